@@ -610,10 +610,37 @@ func c03Fixup(v reflect.Value) {
 	}
 }
 
+func c03SetStrings(v reflect.Value, content []byte) {
+	switch v.Kind() {
+	case reflect.Ptr, reflect.Interface:
+		if !v.IsNil() {
+			c03SetStrings(v.Elem(), content)
+		}
+	case reflect.Struct:
+		if s, ok := v.Addr().Interface().(*types.SMB_STRING); ok {
+			s.Buffer = append([]byte(nil), content...)
+			return
+		}
+		for i := 0; i < v.NumField(); i++ {
+			f := v.Field(i)
+			if f.CanSet() && v.Type().Field(i).Name != "Command" {
+				c03SetStrings(f, content)
+			}
+		}
+	case reflect.Slice:
+		for i := 0; i < v.Len(); i++ {
+			c03SetStrings(v.Index(i), content)
+		}
+	}
+}
+
 // c03Apply puts the message into valuation val (1 or 2): header MID/UID and the first integer field of the command.
 func c03Apply(m *message.Message, val int) {
 	m.Header.MID = types.USHORT(0x1110 * val)
 	m.Header.UID = types.USHORT(0x0101 * val)
+	// every string of the command takes a value of its own length per valuation, assigned the way a caller may: through the
+	// exported Buffer field, leaving the derived Length component as it was (0 on a fresh structure, the previous length later)
+	c03SetStrings(reflect.ValueOf(m.Command), [][]byte{nil, []byte("A1"), []byte("BB222")}[val])
 	v := reflect.ValueOf(m.Command).Elem()
 	for i := 0; i < v.NumField(); i++ {
 		f := v.Field(i)
